@@ -198,7 +198,7 @@ func main() {
 	}
 	nseq, ndrift := r.N(12000), r.N(1000)
 	if f.Tier == "thorough" {
-		nseq, ndrift = r.N(400000), r.N(20000)
+		nseq, ndrift = r.N(150000), r.N(10000)
 	}
 	for _, c := range shapedSeqCases() {
 		r.Add(c)
